@@ -65,7 +65,9 @@ def install_wrappers():
     wrap(ait, "checkpoint", 1)
     wrap(ait, "checkpoint_if_cancelled", 2)
     wrap(ait, "cancel_shielded_checkpoint", 3)
-    wrap(afn, "checkpoint", 1)
+    for name, code in (("checkpoint", 1), ("checkpoint_if_cancelled", 2), ("cancel_shielded_checkpoint", 3)):
+        if hasattr(afn, name):
+            wrap(afn, name, code)
 
 
 def remove_wrappers():
@@ -170,6 +172,75 @@ def mk_iter_obj(src, variant: int):
     if kind == 0:
         return iter(list(l)) if variant % 2 == 0 else _sgen(l)
     return _agen(l) if variant % 2 == 0 else AIterator(l)
+
+
+class LogSyncIter:
+    """a synchronous iterator that logs every next() (event 7)"""
+
+    def __init__(self, l):
+        self.it = iter(list(l))
+
+    def __iter__(self):
+        return self
+
+    def __next__(self):
+        LOG.append(7)
+        return next(self.it)
+
+
+class LogAsyncIter:
+    def __init__(self, l):
+        self.it = iter(list(l))
+
+    def __aiter__(self):
+        return self
+
+    async def __anext__(self):
+        LOG.append(7)
+        try:
+            return next(self.it)
+        except StopIteration:
+            raise StopAsyncIteration from None
+
+
+class LogIterable:
+    """a re-iterable (not an iterator) handing out a logging iterator"""
+
+    def __init__(self, l):
+        self.l = l
+
+    def __iter__(self):
+        return LogSyncIter(self.l)
+
+
+class LogAsyncIterable(AsyncIterable):
+    def __init__(self, l):
+        self.l = l
+
+    def __aiter__(self):
+        return LogAsyncIter(self.l)
+
+
+def mk_log_src(src, variant: int):
+    kind, l = src
+    if kind == 0:
+        return LogSyncIter(l) if variant % 2 == 0 else LogIterable(l)
+    return LogAsyncIter(l) if variant % 2 == 0 else LogAsyncIterable(l)
+
+
+def reducer(f, variant: int):
+    """the asynchronous reducer: logs its invocation (event 6); every third variant really yields to the event loop,
+    the others never yield (plain `async def f(a, b): return ...`)"""
+    if variant % 3 == 2:
+        async def g(a, b):
+            LOG.append(6)
+            await asyncio.sleep(0)
+            return f(a, b)
+    else:
+        async def g(a, b):
+            LOG.append(6)
+            return f(a, b)
+    return g
 
 
 def enc_src(src):
@@ -325,6 +396,7 @@ FUNS = {
     "zip_longest": 19, "tee": 20, "reduce": 21, "tee_args": 22,
     # aliasing family: the same iterator object at several argument positions
     "zip_longest_alias": 23, "chain_alias": 24, "compress_self": 25, "product_alias": 26, "starmap_alias": 27,
+    "reduce_in_cancelled_scope": 28,
 }
 ALIAS = (23, 24, 26, 27)
 FNAME = {v: k for k, v in FUNS.items()}
@@ -332,7 +404,7 @@ FNAME = {v: k for k, v in FUNS.items()}
 
 class Case:
     """fc: function code; a: argument tuple (function specific, see encode); var: source representation variant"""
-    __slots__ = ("fc", "a", "var", "enc", "impl", "std", "impl_vals", "impl_err", "nck", "ncall", "origin")
+    __slots__ = ("fc", "a", "var", "enc", "impl", "std", "impl_vals", "impl_err", "nck", "ncall", "nyield", "npoll", "first_ev", "origin")
 
     def __init__(self, fc, a, var=0, origin="exhaustive"):
         self.fc, self.a, self.var, self.origin = fc, a, var, origin
@@ -340,7 +412,7 @@ class Case:
 
     def sources(self):
         fc, a = self.fc, self.a
-        if fc in (1, 21):
+        if fc in (1, 21, 28):
             return [a[2]]
         if fc in (2,):
             return [a[2]]
@@ -385,7 +457,7 @@ class Case:
 
 
 def encode(fc, a):
-    if fc in (1, 21):      # (fn, initial, src)
+    if fc in (1, 21, 28):  # (fn, initial, src)
         return [fc, 0 if a[0] == -1 else a[0], *enc_opt(a[1]), *enc_src(a[2])]
     if fc == 2:            # (n, strict, src)
         return [fc, a[0], a[1], *enc_src(a[2])]
@@ -511,13 +583,36 @@ async def run_anyio(c: Case):
         f, init, s = a
         try:
             if init is None:
-                r = await afn.reduce(amk(FN2[f], True), S(s))
+                r = await afn.reduce(reducer(FN2[f], v), mk_log_src(s, v))
             else:
-                r = await afn.reduce(amk(FN2[f], True), S(s), init)
+                r = await afn.reduce(reducer(FN2[f], v), mk_log_src(s, v), init)
             LOG.append(("y", r))
             return None
         except Exception as e:  # noqa: BLE001
             return err_code(e)
+    if fc == 28:
+        import anyio
+
+        f, init, s = a
+        out = [None]
+        real, REAL[0] = REAL[0], True       # the wrapped checkpoint functions must really act here
+        try:
+            with anyio.CancelScope() as scope:
+                scope.cancel()
+                try:
+                    if init is None:
+                        r = await afn.reduce(reducer(FN2[f], v), mk_log_src(s, v))
+                    else:
+                        r = await afn.reduce(reducer(FN2[f], v), mk_log_src(s, v), init)
+                    LOG.append(("y", r))
+                except anyio.get_cancelled_exc_class():
+                    out[0] = 3
+                    raise
+                except Exception as e:  # noqa: BLE001
+                    out[0] = err_code(e)
+        finally:
+            REAL[0] = real
+        return out[0]
     if fc in (23, 24, 26, 27):
         store_t, pos = (a[1], a[2]) if fc != 27 else (a[2], a[3])
         objs = [mk_iter_obj(e, v + i) for i, e in enumerate(store_t)]
@@ -597,6 +692,8 @@ def run_std(c: Case):
         if a[0] is None:
             return consume_sync(lambda: it.zip_longest(*[L(s) for s in a[1]]))
         return consume_sync(lambda: it.zip_longest(*[L(s) for s in a[1]], fillvalue=a[0]))
+    if fc == 28:
+        return [], 3        # no standard-library counterpart: the expected outcome is the cancellation
     if fc == 21:
         f, init, s = a
         try:
@@ -663,6 +760,9 @@ async def _execute(cases: list[Case], signal):
         c.impl_err = err
         c.nck = sum(1 for e in log if e in (1, 2, 3))
         c.ncall = sum(1 for e in log if e == 6)
+        c.nyield = sum(1 for e in log if e in (1, 3))
+        c.npoll = sum(1 for e in log if e == 7)
+        c.first_ev = next((e for e in log if isinstance(e, int)), None)
         if c.fc == 22:
             n = [e[1] for e in log if isinstance(e, tuple) and e[0] == "n"]
             c.impl = [5, n[0]] if err is None else [4, err]
@@ -714,6 +814,9 @@ BOUNDS = {
                   zip_n=2, zip_L=2, prod_n=2, prod_L=2, prod_rep=(-1, 0, 1, 2, 3), star_n=2, star_L=2,
                   cycle_L=3, cycle_k=7, count_k=4, Lacc=4,
                   alias_L1=4, alias_L2=2, alias_L3=1, alias_self_L=5),
+    "c08": dict(L=1, Lpred=1, params=(-1, 0, 1, 2), Lcomb=1, Lcompress=1, islice_params=(None, 0, 1, 2), Lislice=1,
+                Lislice_distinct=1, chain_n=2, chain_L=1, zip_n=2, zip_L=1, prod_n=2, prod_L=1, prod_rep=(0, 1), star_n=2,
+                star_L=1, cycle_L=1, cycle_k=2, count_k=1, Lacc=1, alias_L1=1, alias_L2=1, alias_L3=0, alias_self_L=1),
     "thorough": dict(L=6, Lpred=7, params=(-2, -1, 0, 1, 2, 3, 4, 5, 6, 7), Lcomb=5, Lcompress=4,
                      islice_params=(None, -2, -1, 0, 1, 2, 3, 4, 5, 6, 7), Lislice=4, Lislice_distinct=7,
                      chain_n=3, chain_L=2, zip_n=3, zip_L=2, prod_n=2, prod_L=2, prod_rep=(-2, -1, 0, 1, 2, 3),
@@ -741,6 +844,8 @@ def exhaustive_cases(tier: str) -> list[Case]:
         for init in (None, 0, 2):
             for s in S_acc:
                 add(21, (f, init, s))
+                if f in (0, 5) and len(s[1]) <= 3:
+                    add(28, (f, init, s))
     S = srcs_upto(b["L"])
     for n in P:
         for strict in (0, 1):
@@ -1002,6 +1107,15 @@ def monitor(c: Case) -> list[str]:
             hits.append(f"tee(iterable, {c.a[0]}): AnyIO {c.impl} vs stdlib {c.std} ([5,n]=n iterators, [4,e]=error)")
         return hits
     vals, serr = c.std
+    if c.fc in (21, 28) and c.first_ev is not None and c.first_ev != 2:
+        hits.append("reduce touched the iterable or called the function before its cancellation check (checkpoint_if_cancelled)")
+    if c.fc == 28:
+        if c.impl_err != 3:
+            hits.append(f"reduce in an already cancelled scope did not raise the cancellation (outcome: "
+                        f"{'returned ' + repr(c.impl_vals) if c.impl_err is None else 'error ' + str(c.impl_err)}) - not a checkpoint")
+        if c.npoll or c.ncall:
+            hits.append(f"reduce in an already cancelled scope advanced the iterable {c.npoll} times and called the function {c.ncall} times")
+        return hits
     if c.impl_err != serr:
         if c.impl_err == 9:
             hits.append(f"{FNAME[c.fc]}: runaway iterator: still producing after {len(c.impl_vals)} results (or hung); "
@@ -1014,10 +1128,9 @@ def monitor(c: Case) -> list[str]:
         srcs = c.sources()
         sync_only = all(k == 0 for k, _ in srcs)
         if c.fc == 21:
-            if c.nck + c.ncall == 0:
-                hits.append("reduce returned without a checkpoint event and without awaiting the callback")
-            if c.ncall == 0 and c.nck == 0:
-                pass
+            if c.nyield == 0:
+                hits.append(f"reduce returned without passing a checkpoint that yields to the event loop "
+                            f"({c.ncall} callback invocations, reducer {'yields' if c.var % 3 == 2 else 'never yields'})")
         elif c.fc in INFINITE and ((c.fc == 7 and c.a[2] == 0) or (c.fc == 8 and c.a[0] == 0) or
                                    (c.fc == 16 and c.a[1] is None and c.a[2] == 0)):
             pass    # nothing was asked of the iterator
@@ -1063,28 +1176,46 @@ class CountingAsyncSource:
         return self.l[i]
 
 
+_END = object()
+
+
 class TeeRun:
-    def __init__(self, mode: int, src: tuple, n: int):
+    """op codes: 0 next(c), 1 resume(c), 2 + j: tee(its[c], j + 1) - a copy producing j + 1 new consumers"""
+
+    def __init__(self, mode: int, src: tuple, n: int, copies: bool = False, max_consumers: int = 4):
         self.mode, self.src, self.n = mode, tuple(src), n
+        self.copies, self.max_consumers = copies, max_consumers
         self.ops: list[int] = []
         self.outs: list[int] = []
         self.mon: list[str] = []
-        self.seen = {c: [] for c in range(n)}
-        self.stopped = {c: False for c in range(n)}
+        self.seen: dict = {}
+        self.stopped: dict = {}
+        self.cks: dict = {}        # logged checkpoint events per consumer
+        self.blocks: dict = {}     # suspensions per consumer (any segment that ended blocked)
+        self.starts: dict = {}     # candidate start positions (the original's position when the copy was made)
         self.flags: set = set()
+
+    def _new_consumer(self, j, starts):
+        self.seen[j], self.stopped[j], self.cks[j], self.blocks[j], self.starts[j] = [], False, 0, 0, set(starts)
+        self.world.spawn(j + 1)
+        self.cons_of = {id(p.task): t - 1 for t, p in self.world.puppets.items()}
 
     def __enter__(self):
         import anyio.itertools as ait
         from puppet import World
 
+        self.ait = ait
         self.world = World()
         self._sess = self.world.session()
         self._sess.__enter__()
         self.source = CountingSyncSource(self.src) if self.mode == 0 else CountingAsyncSource(self.src, self.mode == 2)
-        self.its = ait.tee(self.source, self.n)
+        self.its = list(ait.tee(self.source, self.n))
+        # the standard library on the same schedule: itertools.tee objects, copies by copy.copy (None = the copy was
+        # taken in the middle of a call of the original, where "the original's position" is not observable)
+        self.std = list(std_itertools.tee(iter(self.src), self.n))
+        self.cons_of = {}
         for c in range(self.n):
-            self.world.spawn(c + 1)
-        self.cons_of = {id(p.task): t - 1 for t, p in self.world.puppets.items()}
+            self._new_consumer(c, {0})
         return self
 
     def __exit__(self, *a):
@@ -1092,6 +1223,8 @@ class TeeRun:
         self._sess.__exit__(*a)
 
     def lock_obs(self):
+        if not self.its:
+            return [0, 0]
         st = self.its[0]._state.lock.statistics()
         owner = 0 if st.owner is None else self.cons_of.get(st.owner.id, 98) + 1
         return [owner, st.tasks_waiting]
@@ -1103,10 +1236,33 @@ class TeeRun:
                 en.append((0, t - 1))
             elif self.world.runnable(p):
                 en.append((1, t - 1))
+        if self.copies and len(self.its) < self.max_consumers:
+            for c in range(len(self.its)):
+                en.append((2, c))
         return en
 
     def do(self, code: int, c: int):
         LOG.clear()
+        if code >= 2:
+            k = code - 1
+            p = self.world.puppets[c + 1]
+            pos = {st + len(self.seen[c]) + d for st in self.starts[c] for d in ((0,) if p.at_decision else (0, 1))}
+            first = len(self.its)
+            new = self.ait.tee(self.its[c], k)
+            if len(new) != k or any(x is self.its[c] for x in new):
+                self.mon.append(f"tee(it_{c}, {k}) returned {len(new)} iterators / the original itself")
+            self.flags.add("copy_of_copy" if c >= self.n else "copy")
+            self.flags.add("copy_midcall" if not p.at_decision else
+                           "copy_exhausted" if self.stopped[c] else
+                           "copy_advanced" if self.seen[c] else "copy_fresh")
+            import copy as _copy
+            for x in new:
+                self.its.append(x)
+                self.std.append(_copy.copy(self.std[c]) if (p.at_decision and self.std[c] is not None) else None)
+                self._new_consumer(len(self.its) - 1, pos)
+            self.ops += [code, c]
+            self.outs += [3, first] + self.lock_obs() + [self.source.polls, 0]
+            return
         if code == 0:
             it = self.its[c]
 
@@ -1120,10 +1276,12 @@ class TeeRun:
         else:
             out = self.world.resume(c + 1)
         ev = [e for e in LOG if isinstance(e, int)]
+        self.cks[c] += sum(1 for e in ev if e in (1, 2, 3))
         if out is None:
             res = [9, 0]
         elif out[0] == "blocked":
             res = [1, 0]
+            self.blocks[c] += 1
         elif out[0] == "ok" and out[1][0] == "v":
             res = [0, out[1][1]]
             self.on_value(c, out[1][1])
@@ -1147,19 +1305,37 @@ class TeeRun:
         i = len(self.seen[c])
         if self.stopped[c]:
             self.mon.append(f"consumer {c} received {v} after StopAsyncIteration")
-        if i >= len(self.src) or self.src[i] != v:
-            self.mon.append(f"consumer {c} received {v} as element #{i} of source {list(self.src)} (seen so far {self.seen[c]})")
+        ok = {p for p in self.starts[c] if p + i < len(self.src) and self.src[p + i] == v}
+        if not ok:
+            self.mon.append(f"consumer {c} (started at position {sorted(self.starts[c])} of source {list(self.src)}) "
+                            f"received {v} as its element #{i} (seen so far {self.seen[c]})")
+        else:
+            self.starts[c] = ok
+        if self.std[c] is not None:
+            sv = next(self.std[c], _END)
+            if sv != v:
+                self.mon.append(f"consumer {c} received {v} but the corresponding itertools.tee / copy.copy iterator gives "
+                                f"{'StopIteration' if sv is _END else sv}")
         self.seen[c].append(v)
 
     def on_stop(self, c):
         self.stopped[c] = True
-        if tuple(self.seen[c]) != self.src:
-            self.mon.append(f"consumer {c} stopped after {self.seen[c]} of source {list(self.src)}")
+        if self.std[c] is not None:
+            sv = next(self.std[c], _END)
+            if sv is not _END:
+                self.mon.append(f"consumer {c} stopped but the corresponding itertools.tee / copy.copy iterator still gives {sv}")
+        if not any(tuple(self.seen[c]) == self.src[p:] for p in self.starts[c]):
+            self.mon.append(f"consumer {c} (started at position {sorted(self.starts[c])}) stopped after {self.seen[c]} "
+                            f"of source {list(self.src)}")
+        if not self.seen[c] and self.cks[c] == 0:
+            self.mon.append(f"traversal of consumer {c} yielded nothing and logged no checkpoint")
+        elif self.cks[c] == 0 and self.blocks[c] == 0:
+            self.mon.append(f"complete traversal of consumer {c} never suspended and logged no checkpoint")
 
     def quiesce(self):
-        """every consumer finishes its call and then drains its iterator: all must have seen the whole source"""
-        for _ in range(40 * (len(self.src) + 2) * max(self.n, 1)):
-            en = self.enabled()
+        """every consumer (copies included) finishes its call and then drains its iterator"""
+        for _ in range(40 * (len(self.src) + 2) * max(len(self.its), 1)):
+            en = [(k, c) for (k, c) in self.enabled() if k < 2]
             res = [(k, c) for (k, c) in en if k == 1]
             if res:
                 self.do(*res[0])
@@ -1171,10 +1347,10 @@ class TeeRun:
         blocked = [t - 1 for t, p in self.world.puppets.items() if not p.at_decision]
         if blocked:
             self.mon.append(f"consumers {blocked} never returned (deadlock)")
-        for c in range(self.n):
-            if not blocked and tuple(self.seen[c]) != self.src:
-                self.mon.append(f"consumer {c} saw {self.seen[c]} of source {list(self.src)}")
-        if self.n and self.source.polls != len(self.src) + 1 and not blocked:
+        for c in range(len(self.its)):
+            if not blocked and not any(tuple(self.seen[c]) == self.src[p:] for p in self.starts[c]):
+                self.mon.append(f"consumer {c} (started at {sorted(self.starts[c])}) saw {self.seen[c]} of source {list(self.src)}")
+        if self.its and self.source.polls != len(self.src) + 1 and not blocked:
             self.mon.append(f"source advanced {self.source.polls} times, expected {len(self.src) + 1}")
         if self.world.loop.errors:
             self.mon.append(f"loop errors: {self.world.loop.errors[:2]}")
@@ -1183,13 +1359,14 @@ class TeeRun:
         return [2, self.mode, self.n, len(self.src), *self.src, *self.ops]
 
     def describe(self):
+        name = lambda k: "next" if k == 0 else "resume" if k == 1 else f"tee(it,{k - 1})"  # noqa: E731
         return {"function": "tee", "mode": ["sync", "async", "async-suspending"][self.mode], "source": list(self.src),
-                "consumers": self.n, "ops": [("next" if self.ops[i] == 0 else "resume", self.ops[i + 1])
-                                             for i in range(0, len(self.ops), 2)], "encoded": self.case()}
+                "consumers": self.n, "ops": [(name(self.ops[i]), self.ops[i + 1]) for i in range(0, len(self.ops), 2)],
+                "encoded": self.case()}
 
 
-def tee_script(mode, src, n, flat_ops, quiesce=True):
-    with TeeRun(mode, src, n) as r:
+def tee_script(mode, src, n, flat_ops, quiesce=True, copies=False, max_consumers=4):
+    with TeeRun(mode, src, n, copies=copies, max_consumers=max_consumers) as r:
         for i in range(0, len(flat_ops), 2):
             r.do(flat_ops[i], flat_ops[i + 1])
         r.enabled_at_end = r.enabled()
@@ -1198,63 +1375,255 @@ def tee_script(mode, src, n, flat_ops, quiesce=True):
         return r
 
 
-def tee_exhaustive(mode, src, n, depth):
-    """all interleavings (sequences of enabled next/resume segments) up to `depth`, each then drained"""
+def tee_exhaustive(mode, src, n, depth, copies=False, max_consumers=3):
+    """all interleavings (sequences of enabled next / resume segments and, with copies=True, tee(it_c, 1) calls on any
+    existing iterator in any state) up to `depth`, each then drained"""
     results = []
 
     def rec(prefix):
-        r = tee_script(mode, src, n, prefix)
+        r = tee_script(mode, src, n, prefix, copies=copies, max_consumers=max_consumers)
         if len(prefix) // 2 >= depth or not r.enabled_at_end:
             results.append(r)
             return
         used = set(prefix[1::2])
         for (k, c) in r.enabled_at_end:
-            if c not in used and c != min(set(range(n)) - used, default=c):
-                continue    # symmetry: a fresh consumer is the smallest unused one
+            if c < n and c not in used and c != min(set(range(n)) - used, default=c):
+                continue    # symmetry: a fresh original consumer is the smallest unused one
             rec(prefix + [k, c])
 
     rec([])
     return results
 
 
+def tee_copy_scripts(tier: str):
+    """directed: consumer 0 completes `a` calls (a = 0 … len+1: fresh, advanced, exhausted), then tee(it_0, k); optionally a
+    copy of the first copy after it advanced `b` calls; everything is then drained.  Sequential schedules only - the
+    interleavings are the business of tee_exhaustive(copies=True)."""
+    runs = []
+    L = 2 if tier == "quick" else 3
+    for mode in (0, 1, 2):
+        for src in lists(L, (1, 2)):
+            for a in range(len(src) + 2):
+                for k in (1, 2):
+                    for b in (None, 0, 1, len(src) + 1):
+                        with TeeRun(mode, src, 1, copies=True, max_consumers=8) as r:
+                            def complete_calls(c, times):
+                                for _ in range(times):
+                                    if r.stopped[c]:
+                                        break
+                                    r.do(0, c)
+                                    for _ in range(12):
+                                        if r.world.puppets[c + 1].at_decision:
+                                            break
+                                        r.do(1, c)
+                            complete_calls(0, a)
+                            r.do(1 + k, 0)
+                            if b is not None:
+                                complete_calls(1, b)
+                                r.do(2, 1)
+                            r.quiesce()
+                            runs.append(r)
+    return runs
+
+
 def tee_random(rng: random.Random, nsteps: int):
     mode = rng.choice([0, 0, 1, 2])
     src = tuple(rng.randint(0, 9) for _ in range(rng.randint(0, 6)))
     n = rng.choice([1, 2, 3, 3, 4, 5])
-    with TeeRun(mode, src, n) as r:
+    with TeeRun(mode, src, n, copies=rng.random() < 0.5, max_consumers=n + 3) as r:
         for _ in range(nsteps):
             en = r.enabled()
             if not en:
                 break
-            k, c = rng.choice(en)
+            ws = [0.25 if k >= 2 else 1.0 for (k, c) in en]
+            k, c = rng.choices(en, ws)[0]
+            if k >= 2:
+                k = rng.choice([2, 2, 3])
             r.do(k, c)
         r.quiesce()
         return r
 
 
-def run_tee(tier: str, rng: random.Random):
+def run_tee(tier: str, rng: random.Random, light: bool = False):
+    """light=True: the part run by bin/check C08 (copies, checkpoints); the full interleaving plan belongs to C19"""
     REAL[0] = True
     install_wrappers()
     try:
         runs = []
         if tier == "quick":
-            plan = [(m, s, n, d) for m in (0, 1, 2) for s, n, d in
+            plan = [(m, s, n, d, False) for m in (0, 1, 2) for s, n, d in
                     (((), 2, 8), ((1,), 2, 9), ((1, 2), 2, 9), ((), 3, 6), ((1,), 3, 7), ((1, 2), 3, 7))]
+            plan += [(m, s, n, d, True) for m in (0, 1, 2) for s, n, d in (((), 1, 6), ((1,), 1, 6), ((), 2, 4), ((1,), 2, 4))]
             nrand = 150
         else:
-            plan = [(m, s, n, d) for m in (0, 1, 2) for s, n, d in
+            plan = [(m, s, n, d, False) for m in (0, 1, 2) for s, n, d in
                     (((), 2, 10), ((1,), 2, 12), ((1, 2), 2, 12), ((), 3, 8), ((1,), 3, 10), ((1, 2), 3, 10),
                      ((1, 2, 0), 3, 9), ((1,), 1, 8))]
+            plan += [(m, s, n, d, True) for m in (0, 1, 2) for s, n, d in
+                     (((), 1, 8), ((1,), 1, 9), ((1, 2), 1, 8), ((), 2, 6), ((1,), 2, 7), ((1, 2), 2, 6))]
             nrand = 3000
-        for (m, s, n, d) in plan:
-            runs += tee_exhaustive(m, s, n, d)
+        if light:
+            plan = [p for p in plan if p[4]]
+            nrand = nrand // 3
+        for (m, s, n, d, cp) in plan:
+            runs += tee_exhaustive(m, s, n, d, copies=cp)
         nex = len(runs)
+        runs += tee_copy_scripts(tier)
         for _ in range(nrand):
             runs.append(tee_random(rng, rng.choice([4, 8, 14, 24])))
         return runs, nex, plan
     finally:
         remove_wrappers()
         REAL[0] = False
+
+
+# ---- cancelled scope: the first __anext__ of an iterator that has not yielded must raise the cancellation ----
+async def _cancelled_first_next(it):
+    """-> 'cancelled' | 'stop' | 'value' | repr(exception)"""
+    import anyio
+
+    outcome = "no-exception"
+    with anyio.CancelScope() as scope:
+        scope.cancel()
+        try:
+            await it.__anext__()
+            outcome = "value"
+        except StopAsyncIteration:
+            outcome = "stop"
+        except anyio.get_cancelled_exc_class():
+            outcome = "cancelled"
+            raise
+        except Exception as e:  # noqa: BLE001
+            outcome = repr(e)
+    return outcome
+
+
+async def _cancelled_family(tier: str):
+    import anyio.itertools as ait
+
+    hits, n_cases = [], 0
+    L = 2 if tier == "quick" else 3
+
+    async def drain(it, calls):
+        for _ in range(calls):
+            try:
+                await it.__anext__()
+            except StopAsyncIteration:
+                break
+
+    for kind in (0, 1):
+        for src in lists(L, (1, 2)):
+            for a in range(len(src) + 2):          # consumer 0 completes a calls: fresh / advanced / exhausted
+                for k in (1, 2):
+                    for b in (None, 0, len(src) + 1):
+                        t0 = ait.tee(mk_iter_obj((kind, src), n_cases), 1)[0]
+                        await drain(t0, a)
+                        copies = list(ait.tee(t0, k))
+                        what = f"tee() copy (1 of {k}) of a tee iterator over {list(src)} that had completed {a} calls"
+                        if b is not None:
+                            await drain(copies[0], b)
+                            copies = list(ait.tee(copies[0], 1))
+                            what = f"copy of a copy (which had completed {b} calls) of a tee iterator over {list(src)} that had completed {a} calls"
+                        for it in copies:
+                            n_cases += 1
+                            out = await _cancelled_first_next(it)
+                            if out != "cancelled":
+                                hits.append(({"function": "tee_cancelled", "kind": kind, "src": list(src), "a": a, "k": k, "b": b},
+                                             f"{what}: first __anext__ in an already cancelled scope ended with '{out}' "
+                                             "instead of raising the cancellation"))
+            # the iterators of a plain tee() call
+            for n in (1, 2):
+                for it in ait.tee(mk_iter_obj((kind, src), n_cases), n):
+                    n_cases += 1
+                    out = await _cancelled_first_next(it)
+                    if out != "cancelled":
+                        hits.append(({"function": "tee_cancelled", "kind": kind, "src": list(src), "a": 0, "k": 0, "b": None, "n": n},
+                                     f"tee iterator over {list(src)}: first __anext__ in an already cancelled scope ended with "
+                                     f"'{out}' instead of raising the cancellation"))
+    # every other iterator function on empty / one-element inputs
+    fns = {
+        "accumulate": lambda s: ait.accumulate(s), "batched": lambda s: ait.batched(s, 2),
+        "chain": lambda s: ait.chain(s), "combinations": lambda s: ait.combinations(s, 1),
+        "combinations_with_replacement": lambda s: ait.combinations_with_replacement(s, 1),
+        "compress": lambda s: ait.compress(s, [1]), "count": lambda s: ait.count(), "cycle": lambda s: ait.cycle(s),
+        "dropwhile": lambda s: ait.dropwhile(amk(PRED[3]), s), "filterfalse": lambda s: ait.filterfalse(amk(PRED[3]), s),
+        "groupby": lambda s: ait.groupby(s), "islice": lambda s: ait.islice(s, 1), "islice0": lambda s: ait.islice(s, 0),
+        "pairwise": lambda s: ait.pairwise(s), "permutations": lambda s: ait.permutations(s),
+        "product": lambda s: ait.product(s), "repeat": lambda s: ait.repeat(1, 2), "repeat0": lambda s: ait.repeat(1, 0),
+        "starmap": lambda s: ait.starmap(amk(_sum), [s]), "takewhile": lambda s: ait.takewhile(amk(PRED[4]), s),
+        "zip_longest": lambda s: ait.zip_longest(s), "zip_longest0": lambda s: ait.zip_longest(),
+    }
+    for name, mk in fns.items():
+        for kind in (0, 1):
+            for src in ((), (1,)):
+                if kind == 1 and src:
+                    continue    # asynchronous source with elements: outside the clause
+                n_cases += 1
+                out = await _cancelled_first_next(mk(mk_src((kind, src), n_cases)).__aiter__())
+                if out != "cancelled":
+                    hits.append(({"function": "cancelled_first_next", "name": name, "kind": kind, "src": list(src)},
+                                 f"{name} over a {'synchronous' if kind == 0 else 'asynchronous'} source {list(src)}: first "
+                                 f"__anext__ in an already cancelled scope ended with '{out}' instead of raising the cancellation"))
+    # functools.reduce, black box (nothing wrapped): every error-free call lets the event loop run at least once,
+    # whatever the reducer does; in an already cancelled scope it raises the cancellation before touching anything
+    import anyio
+    import anyio.functools as afn
+
+    loop = asyncio.get_running_loop()
+    for yielding in (False, True):
+        for kind in (0, 1):
+            for src in lists(3 if tier == "quick" else 4, (1, 2)):
+                for init in (None, 5):
+                    for cancelled in (False, True):
+                        n_cases += 1
+                        calls = [0]
+
+                        async def red(a, b, yielding=yielding, calls=calls):
+                            calls[0] += 1
+                            if yielding:
+                                await asyncio.sleep(0)
+                            return a + b
+
+                        it = CountingSyncSource(src) if kind == 0 else CountingAsyncSource(src, False)
+                        args = (red, it) if init is None else (red, it, init)
+                        ran = []
+                        loop.call_soon(ran.append, 1)
+                        case = {"function": "reduce_blackbox", "kind": kind, "src": list(src), "initial": init,
+                                "reducer_yields": yielding, "cancelled_scope": cancelled}
+                        outcome = "returned"
+                        if cancelled:
+                            with anyio.CancelScope() as scope:
+                                scope.cancel()
+                                try:
+                                    await afn.reduce(*args)
+                                except anyio.get_cancelled_exc_class():
+                                    outcome = "cancelled"
+                                    raise
+                                except TypeError:
+                                    outcome = "TypeError"
+                            if outcome != "cancelled":
+                                hits.append((case, f"reduce({list(src)}, initial={init}) in an already cancelled scope "
+                                                   f"{outcome} instead of raising the cancellation"))
+                            if it.polls or calls[0]:
+                                hits.append((case, f"reduce({list(src)}, initial={init}) in an already cancelled scope advanced "
+                                                   f"the iterable {it.polls} times and called the function {calls[0]} times"))
+                        else:
+                            try:
+                                await afn.reduce(*args)
+                            except TypeError:
+                                outcome = "TypeError"
+                            if outcome == "returned" and not ran:
+                                hits.append((case, f"reduce({list(src)}, initial={init}) with a reducer that "
+                                                   f"{'yields' if yielding else 'never yields'} returned without letting the "
+                                                   "event loop run (not a checkpoint)"))
+                        if not ran:
+                            await asyncio.sleep(0)
+    hits.sort(key=lambda h: (h[0].get("b") is not None, len(h[0].get("src", ())), h[0].get("a", 0), h[0].get("k", 0)))
+    return hits, n_cases
+
+
+def run_cancelled_family(tier: str):
+    return asyncio.run(_cancelled_family(tier))
 
 
 # ----------------------------------------------------------------------------------------------
@@ -1377,11 +1746,11 @@ def check(tier: str) -> int:
     for i in range(0, len(cases), CH):
         chunk = cases[i:i + CH]
         m_out = core.run_driver(exe, [[0] + c.enc for c in chunk])
-        s_out = core.run_driver(exe, [[1] + c.enc for c in chunk if c.fc != 22])
+        s_out = core.run_driver(exe, [[1] + c.enc for c in chunk if c.fc not in (22, 28)])
         for c, o in zip(chunk, m_out):
             if c.impl != o:
                 x1_bad.append((c, o))
-        for c, o in zip([c for c in chunk if c.fc != 22], s_out):
+        for c, o in zip([c for c in chunk if c.fc not in (22, 28)], s_out):
             if flat_outcome(*c.std) != o:
                 x2_bad.append((c, o))
 
@@ -1413,14 +1782,15 @@ def check(tier: str) -> int:
                 tee_rejected += 1
             i += 6 + o[i + 5]
     tee_hits = [(r, msg) for r in tee_runs for msg in r.mon]
+    canc_hits, canc_n = run_cancelled_family(tier)
 
     # ---- kernel-checked sample ----
-    sample_n = 60 if tier == "quick" else 1500
+    sample_n = 60 if tier == "quick" else 800
     idx = list(range(len(cases)))
     rng.shuffle(idx)
     idx = idx[:sample_n]
-    s_in = [[0] + cases[i].enc for i in idx] + [[1] + cases[i].enc for i in idx if cases[i].fc != 22]
-    s_ex = [cases[i].impl for i in idx] + [flat_outcome(*cases[i].std) for i in idx if cases[i].fc != 22]
+    s_in = [[0] + cases[i].enc for i in idx] + [[1] + cases[i].enc for i in idx if cases[i].fc not in (22, 28)]
+    s_ex = [cases[i].impl for i in idx] + [flat_outcome(*cases[i].std) for i in idx if cases[i].fc not in (22, 28)]
     tidx = list(range(len(tee_runs)))
     rng.shuffle(tidx)
     tidx = tidx[:sample_n // 3]
@@ -1450,6 +1820,9 @@ def check(tier: str) -> int:
     if tee_hits:
         r, msg = min(tee_hits, key=lambda p: len(p[0].ops))
         rep.violation(msg, {"kind": "monitor", "case": r.describe(), "observations": r.outs})
+    if canc_hits:
+        c0, msg = canc_hits[0]
+        rep.violation(msg, {"kind": "monitor", "case": c0})
     tie_broken = []
     if not proofs_ok:
         tie_broken.append("proof obligation: " + str(rep.coverage.get("proof_failure", {}).get("where")))
@@ -1465,7 +1838,7 @@ def check(tier: str) -> int:
         tie_broken.append(f"tee model rejected {tee_rejected} segments the implementation performed")
     if not vm_ok and not (x1_bad or x2_bad or tee_bad):
         tie_broken.append("vm_compute sample disagrees with the extracted model")
-    if tie_broken and not hits and not tee_hits and not onward_hits:
+    if tie_broken and not hits and not tee_hits and not onward_hits and not canc_hits:
         d = None
         if x1_bad:
             c, o = min(x1_bad, key=lambda p: len(p[0].enc))
@@ -1499,7 +1872,7 @@ def check(tier: str) -> int:
         "evaluations": 2 * len(cases) + len(tee_runs),
         "programs": len(cases) + len(tee_runs),
         "traces_validated_against_impl": len(cases) - len(x1_bad) + len(tee_runs) - len(tee_bad),
-        "spec_outcomes_validated_against_stdlib": len([c for c in cases if c.fc != 22]) - len(x2_bad),
+        "spec_outcomes_validated_against_stdlib": len([c for c in cases if c.fc not in (22, 28)]) - len(x2_bad),
         "disagreements_checked": len(x1_bad) + len(x2_bad) + len(tee_bad),
         "distinct_nontrivial": len(nontrivial) + len({tuple(r.case()) for r in tee_runs if r.flags}),
         "rule": "per function: every argument combination inside the recorded bounds (alphabet {0,1,2}, every list up to "
@@ -1512,7 +1885,9 @@ def check(tier: str) -> int:
         "exhaustive": True,
         "exhaustive_bounds": {k: (list(v) if isinstance(v, tuple) else v) for k, v in b.items()},
         "exhaustive_small_scope_cases": len(ex),
-        "tee_exhaustive_plan": [{"mode": m, "source": list(s), "consumers": n, "depth": d} for (m, s, n, d) in tee_plan],
+        "tee_exhaustive_plan": [{"mode": m, "source": list(s), "consumers": n, "depth": d, "copy_ops": cp}
+                                for (m, s, n, d, cp) in tee_plan],
+        "tee_cancelled_scope_cases": canc_n,
         "tee_exhaustive_interleavings": tee_nex,
         "tee_runs": len(tee_runs),
         "random_cases": len(rnd) + len(rnd_real),
@@ -1522,7 +1897,7 @@ def check(tier: str) -> int:
         "vm_compute_sample": len(s_in),
         "vm_compute_ok": vm_ok,
         "model_rejected_ops": tee_rejected,
-        "monitor_hits": len(hits) + len(tee_hits) + len(onward_hits),
+        "monitor_hits": len(hits) + len(tee_hits) + len(onward_hits) + len(canc_hits),
         "tee_onward_cases": len(onward_cases),
         "guards": {"yield_cap_default": YIELD_CAP_DEFAULT, "alias_family_yield_cap": "elements + positions + 3",
                    "event_log_cap": "2e6 (alias family: 40 * yield cap + 200)", "watchdog_seconds_per_case": WATCHDOG_S},
@@ -1535,7 +1910,7 @@ def check(tier: str) -> int:
                  "shared_sync_iterator", "zip_longest_grouper_async"):
         if not flags.get(need):
             rep.notes.append(f"generator self-check: predicate {need} never reached")
-    for need in ("lock_contended", "handoff"):
+    for need in ("lock_contended", "handoff", "copy_fresh", "copy_advanced", "copy_exhausted", "copy_of_copy", "copy_midcall"):
         if not tflags.get(need):
             rep.notes.append(f"generator self-check: tee predicate {need} never reached")
     return rep.finish()
@@ -1555,9 +1930,9 @@ def replay(path: str) -> int:
         REAL[0] = True
         install_wrappers()
         try:
-            with TeeRun(mode, src, n) as r:
+            with TeeRun(mode, src, n, copies=True, max_consumers=64) as r:
                 for i in range(0, len(ops), 2):
-                    if (ops[i], ops[i + 1]) not in r.enabled():
+                    if (min(ops[i], 2), ops[i + 1]) not in r.enabled():
                         print(f"step {i // 2} {(ops[i], ops[i + 1])} is not enabled on this tree: it behaves differently "
                               "from the recorded run; draining from here")
                         break
@@ -1568,6 +1943,11 @@ def replay(path: str) -> int:
             REAL[0] = False
         print(json.dumps(r.describe()), "\nobservations:", r.outs, "\nmonitor:", r.mon or "silent")
         return 1 if r.mon else 0
+    if case.get("function") in ("tee_cancelled", "cancelled_first_next", "reduce_blackbox"):
+        hits, _ = run_cancelled_family("quick")
+        same = [m for c0, m in hits if c0 == case] or [m for c0, m in hits][:3]
+        print(json.dumps(case), "\nmonitor:", same or "silent")
+        return 1 if same else 0
     if case.get("function") == "tee_onward":
         c0 = {"F": case["F"], "kind": case["kind"], "src": tuple(case["src"]), "n": case["n"], "pos": tuple(case["pos"])}
         install_wrappers()
@@ -1584,3 +1964,63 @@ def replay(path: str) -> int:
     hits = monitor(c)
     print(json.dumps(c.describe()), "\nanyio trace:", c.impl, "\nstdlib:", c.std, "\nmonitor:", hits or "silent")
     return 1 if hits else 0
+
+
+# ----------------------------------------------------------------------------------------------
+# the itertools clause of C08, run by bin/check C08 (harness/c08.py calls this)
+# ----------------------------------------------------------------------------------------------
+def c08_itertools_part(tier: str) -> dict:
+    """Checkpoint discipline of the iterators on the implementation: tee with copy ops (tie X1 against the tee LTS,
+    per-consumer checkpoint monitor), first __anext__ in an already cancelled scope, and every function on tiny
+    inputs (traversals over synchronous sources / yielding nothing log a checkpoint).
+    -> {"hits": [(message, replay dict)], "tie_broken": [str], "coverage": {...}}"""
+    exe = core.build_driver("itertools", "Itertools")
+    rng = random.Random(core.seed() * 7 + 19)
+    runs, nex, plan = run_tee(tier, rng, light=True)
+    _, corpus_tees = corpus_cases()
+    if corpus_tees:
+        REAL[0] = True
+        install_wrappers()
+        try:
+            runs = [tee_script(t["mode"], tuple(t["src"]), t["n"], t["ops"]) for t in corpus_tees] + runs
+        finally:
+            remove_wrappers()
+            REAL[0] = False
+    model = core.run_driver(exe, [r.case() for r in runs])
+    bad = [(r, o) for r, o in zip(runs, model) if r.outs != o]
+    hits = []
+    tee_hits = [(r, msg) for r in runs for msg in r.mon]
+    if tee_hits:
+        r, msg = min(tee_hits, key=lambda p: len(p[0].ops))
+        hits.append((msg, {"kind": "monitor", "case": r.describe(), "observations": r.outs,
+                           "replay_with": "bin/replay C19 <this file>"}))
+    canc_hits, canc_n = run_cancelled_family(tier)
+    if canc_hits:
+        c0, msg = canc_hits[0]
+        hits.append((msg, {"kind": "monitor", "case": c0, "replay_with": "bin/replay C19 <this file>"}))
+    small = exhaustive_cases("c08") + alias_cases("c08")
+    run_cases(small)
+    m_out = core.run_driver(exe, [[0] + c.enc for c in small])
+    x1_bad = [(c, o) for c, o in zip(small, m_out) if c.impl != o]
+    ck_hits = [(c, h) for c in small for h in monitor(c) if "checkpoint" in h]
+    if ck_hits:
+        c, h = min(ck_hits, key=lambda p: len(p[0].enc))
+        hits.append((h, {"kind": "monitor", "case": c.describe(), "anyio_trace": c.impl, "replay_with": "bin/replay C19 <this file>"}))
+    tie = []
+    if bad:
+        r, o = min(bad, key=lambda p: len(p[0].ops))
+        tie.append("correspondence X1 Itertools.run_tee_case (tee LTS with copy ops) vs anyio.itertools.tee: "
+                   + json.dumps(r.describe()["ops"]))
+    if x1_bad:
+        tie.append("correspondence X1 Itertools.run_model_case vs anyio.itertools (event traces): "
+                   + ", ".join(sorted({FNAME[c.fc] for c, _ in x1_bad})))
+    flags: dict = {}
+    for r in runs:
+        for f in r.flags:
+            flags[f] = flags.get(f, 0) + 1
+    return {"hits": hits, "tie_broken": tie,
+            "coverage": {"tee_runs_with_copy_ops": len(runs), "tee_exhaustive_interleavings": nex,
+                         "tee_plan": [{"mode": m, "source": list(s_), "consumers": n, "depth": d} for (m, s_, n, d, _) in plan],
+                         "tee_reached": flags, "cancelled_scope_first_next_cases": canc_n,
+                         "small_input_traversals": len(small), "tee_model_disagreements": len(bad),
+                         "trace_disagreements": len(x1_bad)}}
